@@ -77,14 +77,18 @@ Step(r) ==
               ELSE IF ~isReq /\ fwdNow /\ fid \notin Ids(Q) THEN "PROP:exactly_once"
               ELSE IF fwdNow THEN FwdVerdict(fid, isFresh) ELSE ""
         knownCls == v0 = "PROP:order_fresh_overtakes_queued" /\ Bypass
-        \* handler model (as the code is, or as designed when Bypass is off)
-        expAsk == IF isReq THEN (Bypass \/ Q = <<>>) ELSE Q # <<>>
+        \* handler model (as the code is; with Bypass off a request admitted while older ones wait
+        \* hands the token to the oldest and queues up itself)
+        expAsk == IF isReq THEN TRUE ELSE Q # <<>>
         m0 == IF T.model # 1 THEN ""
               ELSE IF expAsk /\ acq = -1 THEN "MODEL:acquire_expected"
               ELSE IF ~expAsk /\ acq # -1 THEN "MODEL:acquire_unexpected"
               ELSE IF isReq THEN
-                   (IF acq = 1 THEN (IF out = "f" /\ fid = rid /\ poll = 0 THEN "" ELSE "MODEL:request_admitted")
-                    ELSE IF Len(Q) < T.cap THEN (IF out = "q" /\ poll = (IF armed THEN 0 ELSE 1) THEN "" ELSE "MODEL:request_queued")
+                   (IF acq = 1 /\ (Bypass \/ Q = <<>>)
+                    THEN (IF out = "f" /\ fid = rid /\ poll = 0 THEN "" ELSE "MODEL:request_admitted")
+                    ELSE IF acq = 1      \* as designed: the oldest queued request is forwarded, this one queues
+                    THEN (IF out = "q" /\ fid = Q[1] /\ poll = 0 THEN "" ELSE "MODEL:request_admitted_behind_queue")
+                    ELSE IF Len(Q) < T.cap THEN (IF out = "q" /\ fid = 0 /\ poll = (IF armed THEN 0 ELSE 1) THEN "" ELSE "MODEL:request_queued")
                     ELSE (IF out = "d" /\ poll = 0 THEN "" ELSE "MODEL:request_dropped"))
               ELSE (IF Q = <<>> THEN (IF ~fwdNow /\ poll = 0 THEN "" ELSE "MODEL:poll_empty")
                     ELSE IF acq = 1 THEN (IF fid = Q[1] /\ poll = (IF Len(Q) > 1 THEN 1 ELSE 0) THEN "" ELSE "MODEL:poll_forward")
